@@ -55,7 +55,7 @@ pub fn content(f: Family, m: usize, len: usize) -> Vec<u8> {
             .collect(),
         Family::Sparse => (0..len)
             .map(|i| {
-                let hit = i % 13 == 5;
+                let hit = i % 13 == 8;
                 match m {
                     0 => if hit { b'7' } else { b'0' },
                     1 => if hit { b'Z' } else { b'0' },
